@@ -12,17 +12,22 @@ def coCot (w : World) : Nat := if w.cot = 0 then w.now else w.cot
 def coDue (w : World) (delay : Int) : Int := coD delay + (w.now : Int)
 def coSlot (w : World) (delay : Int) : Nat := slotOf (coDue w delay).toNat
 def coRot (w : World) (delay : Int) : Int := 1 + Int.tdiv (coDue w delay - (coCot w : Int) - 1) (N : Int)
-def coCall (w : World) (owner fn : Nat) (tag : String) (delay : Int) : Call :=
+def coCall (w : World) (owner fn : Nat) (tag : String) (delay : Int) (fp : Bool) : Call :=
   { serial := w.unique + 1, owner := owner, fn := fn, tag := tag,
-    handle := coSlot w delay + N * (w.unique + 1), due := coDue w delay }
+    handle := coSlot w delay + N * (w.unique + 1), due := coDue w delay, fp := fp,
+    giver := liveGiver w w.giver }
 
-theorem newCallOut_fst (w : World) (o f : Nat) (tag : String) (delay : Int) :
-    (newCallOut w o f tag delay).1 =
+theorem newCallOut_fst (w : World) (o f : Nat) (tag : String) (delay : Int) (fp : Bool) :
+    (newCallOut w o f tag delay fp).1 =
       setSlot { w with cot := coCot w, unique := w.unique + 1 } (coSlot w delay)
-        (insertDelta (w.slots (coSlot w delay)) (coRot w delay) (coCall w o f tag delay)) := rfl
+        (insertDelta (w.slots (coSlot w delay)) (coRot w delay) (coCall w o f tag delay fp)) := by
+  unfold newCallOut coCall coRot coSlot coDue coCot coD
+  simp only [tie_clampDelay, tie_initCot, tie_slotExpr, tie_rotExpr, tie_handleExpr]
 
-theorem newCallOut_snd (w : World) (o f : Nat) (tag : String) (delay : Int) :
-    (newCallOut w o f tag delay).2 = coSlot w delay + N * (w.unique + 1) := rfl
+theorem newCallOut_snd (w : World) (o f : Nat) (tag : String) (delay : Int) (fp : Bool) :
+    (newCallOut w o f tag delay fp).2 = coSlot w delay + N * (w.unique + 1) := by
+  unfold newCallOut coSlot coDue coD
+  simp only [tie_clampDelay, tie_slotExpr, tie_handleExpr]
 
 theorem coD_pos (delay : Int) : 1 ≤ coD delay := by unfold coD; split <;> omega
 
@@ -56,12 +61,12 @@ theorem old_ent_co {w : World} (h : WheelInv w) (s : Nat) (p : Int × Call) (hp 
     exact ⟨e.slot, by simp only [hc]; exact e.due, by simp only [hc]; exact e.notPast, e.handle, e.serialPos,
       Nat.le_succ_of_le e.serial⟩
 
-theorem newCallOut_ok {w : World} (h : WheelInv w) (o f : Nat) (tag : String) (delay : Int) :
-    StepOK w (newCallOut w o f tag delay).1 := by
+theorem newCallOut_ok {w : World} (h : WheelInv w) (o f : Nat) (tag : String) (delay : Int) (fp : Bool) :
+    StepOK w (newCallOut w o f tag delay fp).1 := by
   rw [newCallOut_fst]
   have hcum : ∀ s, cum 0 ((setSlot { w with cot := coCot w, unique := w.unique + 1 } (coSlot w delay)
-        (insertDelta (w.slots (coSlot w delay)) (coRot w delay) (coCall w o f tag delay))).slots s) =
-      if s = coSlot w delay then insC (coRot w delay) (coCall w o f tag delay) (cum 0 (w.slots s))
+        (insertDelta (w.slots (coSlot w delay)) (coRot w delay) (coCall w o f tag delay fp))).slots s) =
+      if s = coSlot w delay then insC (coRot w delay) (coCall w o f tag delay fp) (cum 0 (w.slots s))
       else cum 0 (w.slots s) := by
     intro s
     simp only [setSlot_slots]
@@ -116,7 +121,7 @@ theorem removeByHandle_ok {w : World} (h : WheelInv w) (hd : Nat) : StepOK w (re
 
 theorem removeByName_ok {w : World} (h : WheelInv w) (o f : Nat) : StepOK w (removeByName w o f).1 := by
   unfold removeByName
-  cases hr : scanFrom (fun i => removeFirst (fun c => c.owner == o && c.fn == f) (w.slots i) 0) N 0 with
+  cases hr : scanFrom (fun i => removeFirst (byName o f) (w.slots i) 0) N 0 with
   | none => exact StepOK.refl h
   | some r =>
     have := (scanFrom_some (j := r.1) (a := r.2) hr).2.2
@@ -134,12 +139,12 @@ theorem removeAll_ok {w : World} (h : WheelInv w) (o : Nat) : StepOK w (removeAl
 
 theorem stepOp_ok {w : World} (h : WheelInv w) (self : Nat) (op : Op) : StepOK w (stepOp w self op).w := by
   cases op with
-  | co fn delay tag =>
+  | co fn delay tag fp =>
     unfold stepOp
     simp only []
     split
     · exact (StepOK.refl h).congr rfl rfl rfl rfl
-    · exact (newCallOut_ok h self fn tag delay).congr rfl rfl rfl rfl
+    · exact (newCallOut_ok h self fn tag delay fp).congr rfl rfl rfl rfl
   | rmh tag => exact (removeByHandle_ok h _).congr rfl rfl rfl rfl
   | rmn fn => exact (removeByName_ok h self fn).congr rfl rfl rfl rfl
   | fh tag => exact (StepOK.refl h).congr rfl rfl rfl rfl
@@ -171,8 +176,11 @@ theorem runOps_ok {w : World} (h : WheelInv w) (self : Nat) (ops : List Op) :
 theorem fireOne_ok {w : World} (h : WheelInv w) (sc : Scripts) (cop : Entry) : StepOK w (fireOne sc w cop) := by
   unfold fireOne
   split
-  · exact StepOK.refl h
-  · have h1 : WheelInv (emit w (.fire (vnow w) cop.c.owner cop.c.fn cop.c.tag)) := h.congr rfl rfl rfl rfl
+  · split
+    · exact (StepOK.refl h).congr rfl rfl rfl rfl
+    · exact StepOK.refl h
+  · have h1 : WheelInv (emit { w with giver := liveGiver w cop.c.giver }
+        (.fire (vnow w) cop.c.owner cop.c.fn cop.c.tag (liveGiver w cop.c.giver))) := h.congr rfl rfl rfl rfl
     have := runOps_ok h1 cop.c.owner (sc cop.c.owner cop.c.tag)
     exact ⟨this.inv, this.cot, this.now, this.zc, this.uniq⟩
 
